@@ -1,0 +1,9 @@
+//go:build verif
+
+// Proof harness for the bmverif deductive checker (never called by the toolchain): save then load.
+
+package procbuilder
+
+func verifMachineRoundTrip(m *Machine) *Machine {
+	return m.Jsoner().Dejsoner()
+}
